@@ -74,8 +74,15 @@ def init_point(h, c, e, x, valid, d, rng):
     settings = build(h, c, e, x)
     pw = b'pw-' + rng.randbytes(3).hex().encode()
     ev = {'a': 'init', 'point': [h, c, e, x], 'valid': bool(valid), 'accepted': True, 'mutations': 0, 'unlock': False, 'roundtrip': False, 'detail': '~'}
+    # the key is taken from the file replicat writes (--key-output-file); for every other point a LONGER file is already there
+    # (an old key, a note): what counts is what is on disk afterwards
+    kf = d / 'owner.key'
+    mode = rng.choice(['print', 'new-file', 'over-longer-file'])
+    if mode == 'over-longer-file':
+        kf.write_bytes(b'{"an old key file": "' + b'x' * 3000 + b'"}')
+    ev['keyfile'] = mode
     try:
-        user = w.init('o', pw, settings)
+        user = w.init('o', pw, settings, key_file=None if mode == 'print' else str(kf))
     except BaseException as ex:  # noqa: BLE001
         ev['accepted'] = False
         ev['detail'] = '%s: %s' % (type(ex).__name__, str(ex)[:100])
@@ -107,8 +114,14 @@ def chain_events(chain, d, rng):
         nm = 'k%d' % (i + 1)
         before = len(store.mutlog)
         ev = {'a': 'addkey', 'link': [kind, kdf], 'accepted': True, 'mutations': 0, 'roundtrip': False, 'detail': '~', 'valid': True}
+        kf = d / ('%s.key' % nm)
+        mode = rng.choice(['print', 'new-file', 'over-longer-file'])
+        if mode == 'over-longer-file':
+            kf.write_bytes(w.users[frm].key + b' ' * 200)        # e.g. replacing a key file in place: the old, longer content is there
+        ev['keyfile'] = mode
         try:
-            w.add_key(frm, nm, b'pw-%d' % (i + 1), shared=(kind == 'shared'), clone=(kind == 'clone'), settings_={'encryption': {'kdf': dict(K[kdf])}})
+            w.add_key(frm, nm, b'pw-%d' % (i + 1), shared=(kind == 'shared'), clone=(kind == 'clone'), settings_={'encryption': {'kdf': dict(K[kdf])}},
+                      key_file=None if mode == 'print' else str(kf))
         except BaseException as ex:  # noqa: BLE001
             ev.update(accepted=False, detail='%s: %s' % (type(ex).__name__, str(ex)[:100]), mutations=len(store.mutlog) - before)
             evs.append(ev)
